@@ -1,6 +1,8 @@
 import CkbVerif.Lemmas.IndexerAppend
 import CkbVerif.Lemmas.IndexerScan
 import CkbVerif.Lemmas.IndexerChain
+import CkbVerif.Lemmas.IndexerType
+import CkbVerif.Lemmas.IndexerHistory
 
 /-!
 # C18 — the indexer's answers equal filtering the chain's live cells and transactions
@@ -30,22 +32,30 @@ Proved here (all unbounded: any store, any block, any script):
   block, …), with the automatic prune interleaved: the exact-mode live-cell scan by lock script
   returns exactly the rows of the live cells (OutPoint rows = replayed live set) whose lock script is
   the searched one, with their creation block number / tx index. PARTIAL: blocks WITHOUT same-block
-  spends; lock-script live cells only (type script / tx history rows analogous but not done).
-* `answers_eq_filter_instance`, `rollback_append_partial` — sanity instances on one concrete
+  spends; the transaction-history rows are not part of it.
+* `answers_eq_filter_type_partial` — the same for live cells by TYPE script.
+* `history_step_lock_partial` / `history_step_type_partial` — the Tx*Script rows of the appended
+  block's number are exactly the direct filter over that block: one `output` row per output under its
+  lock / type script, one `input` row per resolved input of a non-cellbase transaction under the
+  lock / type script of the cell it spends, each mapping to the transaction's id; together with
+  `append_keeps_history` (rows of other block numbers never change) this is "tx lists by script =
+  filter over the chain's tx history" by induction over appends. PARTIAL: no same-block spends.
+* `rollback_append_partial` — for ANY store `s` with unique keys and ANY block `b` that is well-formed
+  for `s` (`WFRollbackT`: distinct fresh tx ids, no rows of `b`'s number in `s`, header number above
+  every indexed header, the lock/type live-cell indexes of `s` consistent with its OutPoint rows, no
+  input referring to a transaction of the same block): `rollback (appendCore s b)` has EVERY row of
+  every family except ConsumedOutPoint (OutPoint, CellLockScript, CellTypeScript, TxLockScript,
+  TxTypeScript, TxHash, Header) equal to that of `s`, and the same tip. PARTIAL: blocks WITHOUT
+  same-block spends; `appendCore` (the automatic prune between append and rollback is not included).
+* `answers_eq_filter_instance`, `rollback_append_instance` — sanity instances on one concrete
   two-block chain WITH a same-block spend (kernel evaluation).
 
 NOT proved in general (tested by the correspondence harness against an independent replay oracle):
-
-  theorem answers_eq_filter : ∀ blocks (well-formed chain), ∀ k, k.isAnswer →
-      get (blocks.foldl (append keep interval) []) k = rowsOfReplay blocks k
-  theorem rollback_append : ∀ s b (b well-formed for s: inputs live in s or created earlier in b,
-      fresh tx ids, fresh header), (∀ k, k.isAnswer → get (rollback (appendCore s b)) k = get s k)
-      ∧ tip (rollback (appendCore s b)) = tip s
-
-Missing: for same-block spends the put-then-delete ORDER inside one batch matters (all lemmas here
-are order-free: `get_commit_all_put` / `get_commit_all_del`), so `txsOps_shape` must be refined with
-positions; for `rollback_append` additionally the characterisation of the rollback batch (which reads
-the Header row's transaction list, the TxHash rows and the ConsumedOutPoint rows written by append).
+same-block spends in `answers_eq_filter` / `rollback_append` (there the put-then-delete ORDER inside
+one batch matters; all lemmas here are order-free: `get_commit_all_put` / `get_commit_all_del`, so
+`txsOps_shape` / `mem_Rtx` would have to be refined with positions); rollback after an intervening
+prune; prefix-mode answers
+(see `prefix_search_overmatch_witness`), ordering / limit / cursor of the RPC layer.
 -/
 namespace CkbVerif.C18
 open CkbVerif.Indexer CkbVerif.Gen.Indexer
@@ -265,6 +275,84 @@ example : ChainOK 1 1 []
       ⟨2, 12, [⟨4, [⟨0, 4294967295⟩], [⟨5, ⟨1, [1]⟩, none, []⟩]⟩, ⟨5, [⟨3, 1⟩], []⟩]⟩ ] :=
   ⟨wfAppend_of_B _ _ (by decide), wfAppend_of_B _ _ (by decide), wfAppend_of_B _ _ (by decide), trivial⟩
 
+/-- **answers_eq_filter for type scripts** (PARTIAL as above): the exact-mode live-cell scan by TYPE
+script returns exactly the rows of the live cells whose type script is the searched one. -/
+theorem answers_eq_filter_type_partial (keep interval : Nat) (blocks : List Block)
+    (ok : ChainOK keep interval [] blocks) (q sc : Script) (bn txi io t : Nat) :
+    ((Key.cellType sc bn txi io, Val.tx t) ∈ scan (blocks.foldl (append keep interval) []) (cellPrefix false q) ∧
+      (Key.cellType sc bn txi io).bytes.length = (cellPrefix false q).length + 16) ↔
+    (sc = q ∧ ∃ c : Cell, get (blocks.foldl (append keep interval) []) (.outPoint ⟨t, io⟩) = some (.cell c) ∧
+      c.out.type = some q ∧ c.bn = bn ∧ c.txIdx = txi) := by
+  have hnd := nodup_chain keep interval blocks [] trivial
+  have hinv := typeInv_chain keep interval blocks [] typeInv_empty ok
+  have h := exact_cellType q sc bn txi io
+  rw [mem_scan, mem_iff_get _ hnd, hinv sc bn txi io t]
+  simp only [cellPrefix, Bool.false_eq_true, if_false] at *
+  constructor
+  · rintro ⟨⟨⟨c, hc, hl, hb, ht⟩, hp⟩, hlen⟩
+    have := h.mp ⟨hp, hlen⟩
+    subst this
+    exact ⟨rfl, c, hc, hl, hb, ht⟩
+  · rintro ⟨rfl, c, hc, hl, hb, ht⟩
+    obtain ⟨hp, hlen⟩ := h.mpr rfl
+    exact ⟨⟨⟨c, hc, hl, hb, ht⟩, hp⟩, hlen⟩
+
+/-! ## the transaction history written by one append -/
+
+/-- **tx lists by lock script = filter over the block** (PARTIAL: no same-block spends) -/
+theorem history_step_lock_partial (s : Store) (b : Block) (wf : WFAppend s b)
+    (fresh : ∀ (sc : Script) (txi io : Nat) (t : IoType), get s (.txLock sc b.number txi io t) = none)
+    (sc : Script) (i io : Nat) (t : IoType) (id : Nat) :
+    get (appendCore s b) (.txLock sc b.number i io t) = some (.tx id) ↔
+      ∃ tx : Tx, b.txs[i]? = some tx ∧ id = tx.id ∧
+        ((t = .output ∧ ∃ out : Output, tx.outputs[io]? = some out ∧ out.lock = sc) ∨
+         (t = .input ∧ i ≠ 0 ∧ ∃ (op : OutPoint) (c : Cell), tx.inputs[io]? = some op ∧
+            get s (.outPoint op) = some (.cell c) ∧ c.out.lock = sc)) :=
+  txLock_step wf fresh sc i io t id
+
+/-- **tx lists by type script = filter over the block** (PARTIAL: no same-block spends) -/
+theorem history_step_type_partial (s : Store) (b : Block) (wf : WFAppend s b)
+    (fresh : ∀ (sc : Script) (txi io : Nat) (t : IoType), get s (.txType sc b.number txi io t) = none)
+    (sc : Script) (i io : Nat) (t : IoType) (id : Nat) :
+    get (appendCore s b) (.txType sc b.number i io t) = some (.tx id) ↔
+      ∃ tx : Tx, b.txs[i]? = some tx ∧ id = tx.id ∧
+        ((t = .output ∧ ∃ out : Output, tx.outputs[io]? = some out ∧ out.type = some sc) ∨
+         (t = .input ∧ i ≠ 0 ∧ ∃ (op : OutPoint) (c : Cell), tx.inputs[io]? = some op ∧
+            get s (.outPoint op) = some (.cell c) ∧ c.out.type = some sc)) :=
+  txType_step wf fresh sc i io t id
+
+/-- hypotheses satisfiable (the empty store, a block with an output), and a row it describes -/
+example :
+    let b0 : Block := ⟨0, 10, [⟨1, [⟨0, 4294967295⟩], [⟨1000, ⟨1, [1]⟩, some ⟨2, [5]⟩, [7]⟩]⟩]⟩
+    WFAppend [] b0 ∧ (∀ (sc : Script) (txi io : Nat) (t : IoType), get [] (.txLock sc b0.number txi io t) = none) ∧
+      get (appendCore [] b0) (.txLock ⟨1, [1]⟩ 0 0 0 .output) = some (.tx 1) :=
+  ⟨wfAppend_of_B _ _ (by decide), fun _ _ _ _ => rfl, by decide⟩
+
+/-! ## rollback ∘ append (blocks without same-block spends) -/
+
+/-- **rollback_append** (PARTIAL: no same-block spends; `appendCore`, i.e. without an intervening
+prune). Rolling back the block just appended restores every row of every family except the
+ConsumedOutPoint residue — so every answer (live cells by lock / type script, transaction lists by
+lock / type script, and the TxHash / Header bookkeeping) — and the tip. -/
+theorem rollback_append_partial (s : Store) (b : Block) (wf : WFRollbackT s b) (hnd : NodupKeys s) :
+    (∀ k : Key, (∀ bn op, k ≠ .consumed bn op) → get (rollback (appendCore s b)) k = get s k) ∧
+    tip (rollback (appendCore s b)) = tip s :=
+  ⟨fun k hk => rollback_append_get wf k hk, rollback_append_tip wf hnd⟩
+
+/-- the hypotheses are satisfiable by a non-trivial state: `s` = one block indexed, `b` spends its
+output (lock + type script) and creates two cells -/
+example :
+    let b0 : Block := ⟨0, 10, [⟨1, [⟨0, 4294967295⟩], [⟨1000, ⟨1, [1]⟩, some ⟨2, [5]⟩, [7]⟩]⟩]⟩
+    let b1 : Block := ⟨1, 11, [⟨2, [⟨0, 4294967295⟩], []⟩,
+      ⟨3, [⟨1, 0⟩], [⟨100, ⟨1, [1]⟩, some ⟨2, [5]⟩, [7]⟩, ⟨250, ⟨1, [1, 2]⟩, none, []⟩]⟩]⟩
+    WFRollbackT (appendCore [] b0) b1 ∧ NodupKeys (appendCore [] b0) ∧
+      get (appendCore (appendCore [] b0) b1) (.outPoint ⟨1, 0⟩) = none ∧
+      get (rollback (appendCore (appendCore [] b0) b1)) (.outPoint ⟨1, 0⟩) ≠ none := by
+  intro b0 b1
+  have wf0 : WFAppend [] b0 := wfAppend_of_B _ _ (by decide)
+  refine ⟨wfRollbackT_of _ _ (by decide) (by decide) (lockInv_append _ _ wf0 lockInv_empty)
+    (typeInv_append wf0 typeInv_empty), nodup_commit _ _ trivial, by decide, by decide⟩
+
 /-! ## Lean witnesses of the other two known deviations of the code (known_findings.txt) -/
 
 /-- **capacity / script_len_range**: `get_cells_capacity` treats the END of `script_len_range` as
@@ -321,8 +409,8 @@ theorem answers_eq_filter_instance :
 
 /-- `rollback_append` on the same chain: rolling back exBlock1 restores every answer row and the
 tip of the state before it was appended (ConsumedOutPoint residue stays behind).
-PARTIAL: one instance; the general statement is in the header comment. -/
-theorem rollback_append_partial :
+(A sanity instance with a SAME-BLOCK spend, which the general theorem above does not cover.) -/
+theorem rollback_append_instance :
     sameAnswers (rollback (appendCore (appendCore [] exBlock0) exBlock1)) (appendCore [] exBlock0) = true ∧
     tip (rollback (appendCore (appendCore [] exBlock0) exBlock1)) = tip (appendCore [] exBlock0) ∧
     get (rollback (appendCore (appendCore [] exBlock0) exBlock1)) (.consumed 1 ⟨3, 0⟩) ≠ none := by
